@@ -227,6 +227,53 @@ PROPS = {
              "not panic and leaves a deep snapshot of the schema unchanged. Non-trivial = >=2 types and >=1 two-way relationship.",
         assumptions=COMMON_ASSUMPTIONS + ["'names it back' is the name pair test (FromName/ToName), as in the code; an inverse that names back but targets a third type is not required to be reported"],
     ),
+    "C17": dict(
+        regress="TestC17Regress",
+        subs=[
+            dict(test="TestC17ReadBack", quick=2500, thorough=20000),
+            dict(test="TestC17Equality", quick=10000, thorough=80000),
+        ],
+        rule="ReadBack: rapid state machine driving, in lock-step, a SoftResource and a wrapped reflect.StructOf struct of the same generated type "
+             "(1-6 attributes over the 28 kinds, 1 in 6 with all 28; to-one and to-many relationships) and a map model: Set with a value of the declared "
+             "Go type (typed nil and pointers for nullable kinds), Set(nullable, untyped nil), Set(id), Set on relationships, New(); after every step both "
+             "implementations must expose the type's name and exactly its fields with the schema's definitions, and every Get must equal the last value "
+             "set or the kind's zero (nil for nullable, empty string / empty list for relationships). Equality: pairs (soft or wrapped on either side) "
+             "that are identical or differ in exactly one of type name, one attribute name, one relationship name, one attribute value, one relationship "
+             "value, ID; Equal and EqualStrict must be reflexive, symmetric and never hold across a difference. Non-trivial = history with >=3 Sets over "
+             ">=2 kinds incl. a nil<->value transition; pair differing in exactly one aspect.",
+        assumptions=COMMON_ASSUMPTIONS + ["typed and untyped nil are the same value; a nil and an empty byte string are the same value",
+                                          "relationships are generated without FromOne (a struct tag cannot express it)"],
+    ),
+    "C18": dict(
+        regress="TestC18Regress",
+        subs=[
+            dict(test="TestC18Copy", quick=4000, thorough=30000),
+            dict(test="TestC18Type", quick=8000, thorough=60000),
+        ],
+        rule="A resource (soft or wrapped StructOf struct) of a generated type that always has a byte string, a nullable byte string, a nullable string, "
+             "two to-many and one to-one relationship next to random attributes, filled with values (3 in 4 cases force non-empty bytes and a 3-ID list); "
+             "Copy() (5 in 6) or New(); the copy must read back the source's type name, fields, ID and values (New: zeros) and the source must be "
+             "unchanged; then 1-12 mutations on a randomly chosen side: Set attribute/relationship/ID, MarshalResource with relationship data (sorts IDs "
+             "in place), Filter '=' on a to-many (sorts in place), writing an element of the []byte / []string / *[]byte returned by Get, and for soft "
+             "resources AddAttr / AddRel / RemoveField; a deep, order-sensitive snapshot of the other side taken before each mutation must be unchanged. "
+             "Type sub-check: Type.Copy of a generated type is snapshot-equal and independent under AddAttr/AddRel/Remove*/direct map writes/rename on "
+             "either side. Non-trivial = source holds non-empty bytes or >=2 IDs and >=1 in-place mutation was applied to a Copy.",
+        assumptions=COMMON_ASSUMPTIONS + ["writing through a scalar pointer obtained from Get is not among the listed operations and is not generated"],
+    ),
+    "C19": dict(
+        regress="TestC19Regress",
+        subs=[dict(test="TestC19Store", quick=2500, thorough=15000)],
+        rule="rapid state machine on a SoftCollection whose type was set (attributes from {p,q,s} over 7 kinds, relationships from {m,o}): Add of a "
+             "resource of exactly the collection's type or of a freshly drawn narrower / wider / conflicting type, soft or wrapped, with IDs from a "
+             "4-element pool (duplicates frequent); Remove (present anywhere or missing); AddAttr / AddRel (new and duplicate names); SetType to a copy of "
+             "the current type with fields dropped and/or one added; Set on a previously added source resource. A list model is stepped in parallel; after "
+             "every step: Len, At in range, At(-1/-5/len/len+3) nil, Resource(id) for every pool ID, collection type fields, and for every stored "
+             "resource exactly the collection's current fields with the collection's definitions and the modelled values (snapshot at Add if the "
+             "definition matched, zero otherwise and for fields added later). Non-trivial = >=2 Add, >=1 Remove that hits and >=1 type change after "
+             "the first Add.",
+        assumptions=COMMON_ASSUMPTIONS + ["attribute and relationship name pools are disjoint (cross-kind collisions are not compared)",
+                                          "a field dropped by SetType loses its stored values"],
+    ),
 }
 
 LEVEL_NOTE = ("Trusted base: Go toolchain and runtime, encoding/json, reflect, rapid v1.3.0, the harness' own generators and "
@@ -234,6 +281,21 @@ LEVEL_NOTE = ("Trusted base: Go toolchain and runtime, encoding/json, reflect, r
               "violation is not a proof.")
 
 MANIFEST_TEXT = {
+    "C17": dict(
+        technique="stateful property-based testing (rapid state machine, two implementations in lock-step against a map model) + generated pairs for the equality laws",
+        level_text="Exploration: histories of well-typed Set calls are replayed on both implementations and compared with a model after every step; equality laws are checked on pairs differing in exactly one aspect.",
+        level_note=LEVEL_NOTE,
+    ),
+    "C18": dict(
+        technique="property-based testing (rapid): copy-then-mutate histories with deep before/after snapshots of the untouched side",
+        level_text="Exploration: every listed mutation kind, including the in-place ones (marshal, filter, slice writes), is applied to either side after Copy/New and the other side is snapshot-compared.",
+        level_note=LEVEL_NOTE,
+    ),
+    "C19": dict(
+        technique="stateful property-based testing (rapid state machine) against an ordered-list reference model",
+        level_text="Exploration: histories of Add/Remove/AddAttr/AddRel/SetType/Set-on-source are shrunk as one value; all reads are compared with the model after every step.",
+        level_note=LEVEL_NOTE,
+    ),
     "C14": dict(
         technique="stateful property-based testing (rapid state machine) against a reference model with all-or-nothing snapshots",
         level_text="Exploration: edit histories are generated and shrunk as one value; the model decides for every edit whether it must succeed, and the schema is compared with it after every step.",
